@@ -132,7 +132,29 @@ fn show_relabels(before: &[Token], after: &[Token]) -> String {
     if d.is_empty() { "-".into() } else { d.join(",") }
 }
 
+/// `C13_LOWER=1`: the line is `hex(src) \t classes \t program \t errors` — the real `parse_program` (tokenize, preparse, parse_cst,
+/// `Lowerer::lower_program`, reserved-name diagnostics) printed by `mmh::lower_print` for the lowering correspondence (`drv_c16`)
+fn lower_mode() -> bool {
+    static M: std::sync::OnceLock<bool> = std::sync::OnceLock::new();
+    *M.get_or_init(|| std::env::var("C13_LOWER").map(|v| v == "1").unwrap_or(false))
+}
+
+pub fn run_lower(src: &str) -> String {
+    let s = src.to_string();
+    let r = std::panic::catch_unwind(move || {
+        let (prog, errors) = parser::parse_program(&s, std::path::PathBuf::new());
+        (mmh::lower_print::program(&prog), show_errors(&errors))
+    });
+    match r {
+        Ok((p, e)) => format!("{}\t{}\t{}\t{}", hex(src), classes(src), p, e),
+        Err(_) => format!("{}\t{}\tPANIC\tPANIC", hex(src), classes(src)),
+    }
+}
+
 pub fn run_case(src: &str) -> String {
+    if lower_mode() {
+        return run_lower(src);
+    }
     let s = src.to_string();
     let r = std::panic::catch_unwind(move || {
         let tokens = parser::tokenize(&s);
